@@ -263,6 +263,9 @@ impl Hasher for THH {
             0 => 0,
             1 => self.0 % 3,
             2 => self.0 << 57,
+            5 => (self.0 ^ 0x5bd1e995).wrapping_mul(0x9E3779B97F4A7C15) & 0xFFFF,   // 16-bit hash (non-zero, below 2^32)
+            6 => u64::MAX,                                                          // constant, all bits set
+            7 => (self.0 & 1) << 63 | (self.0 >> 1) & 7,                            // two tag classes, eight probe starts
             _ => (self.0 ^ 0x5bd1e995).wrapping_mul(0x9E3779B97F4A7C15),
         }
     }
@@ -272,4 +275,6 @@ impl Hasher for THH {
     fn write_u32(&mut self, x: u32) { self.0 = self.0.wrapping_mul(31).wrapping_add(x as u64); }
 }
 
-pub const HASHER_NAMES: [&str; 5] = ["const", "mod3", "hibits", "mix", "default"];
+pub const HASHER_NAMES: [&str; 8] = ["const", "mod3", "hibits", "mix", "default", "mix16", "const-ones", "coarse"];
+/// hasher kinds of the deterministic family (4 = hashbrown's default hasher, not a TH kind)
+pub const TH_KINDS: [u8; 7] = [0, 1, 2, 3, 5, 6, 7];
